@@ -71,7 +71,7 @@ structure Tables where
   /-- second rune written by `formatLiteralLexicalForm` for an ECHAR rune (0 = slot left untouched) -/
   echar : RangeTable
   /-- `prefixLocalNameMustEscapeRune(r, pos, length)` by `(pos == 0)`, `(pos == length-1)`:
-      0 none, 1 not representable in a PN_LOCAL, 2 PN_LOCAL_ESC (backslash) -/
+      0 none, 1 PERCENT, 2 PN_LOCAL_ESC (backslash), 3 not representable in a PN_LOCAL -/
   localEsc : Bool → Bool → RangeTable
   /-- `internal.HexDecode`: 0 = not ok, v+1 = value v -/
   hexDec : RangeTable
@@ -104,12 +104,15 @@ def formatLiteralLexicalForm (T : Tables) (ascii : Bool) (s : List Nat) : List N
   0x22 :: (litBody T ascii s ++ [0x22])
 
 /-- `format_PN_LOCAL` from position `first`; `none` = some rune cannot be written in a PN_LOCAL
-    (repaired code returns `ok = false` and the caller falls back to `<…>`). -/
+    without changing the IRI (repaired code, D5: returns `ok = false`, the caller falls back to `<…>`).
+    Mode 1 (runes that are not IRI characters at all: controls, space, `<>"{}|^\``, backslash) is
+    percent-encoded with the low byte, as before the repair. -/
 def formatLocalFrom (T : Tables) : Bool → List Nat → Option (List Nat)
   | _, [] => some []
   | first, c :: rest =>
     match lookup (T.localEsc first rest.isEmpty) 0 c with
     | 0 => (formatLocalFrom T false rest).map (fun t => c :: t)
+    | 1 => (formatLocalFrom T false rest).map (fun t => 0x25 :: hexUpper (c / 16 % 16) :: hexUpper (c % 16) :: t)
     | 2 => (formatLocalFrom T false rest).map (fun t => 0x5c :: c :: t)
     | _ => none
 
